@@ -69,6 +69,9 @@ type env = {
   mutable c_open : bool;
   mutable s_open : bool;
   mutable c_stalled : bool;   (* the harness holds writes toward the client (STC) *)
+  mutable pf : (side * char * int) option;  (* scripted processor: direction, method, n-th call fails *)
+  mutable pf_count : int;
+  mutable grpc : bool;
 }
 
 let side_of c = if c = 'c' || c = 'C' then Cl else Sv
@@ -83,7 +86,36 @@ let labels_of_part (env : env) (p : string) : label list =
   let hd = List.hd f in
   let send x k = if can_send env x then [ ESend (x, k) ] else [] in
   let rec times n g = if n <= 0 then [] else let a = g () in a @ times (n - 1) g in
+  (* does the stream processor reject this call? (the frame then is a protocol error: KBad) *)
+  let rejected x m =
+    match env.pf with
+    | Some (d, mm, n) when d = x && mm = m -> env.pf_count <- env.pf_count + 1; env.pf_count = n
+    | _ -> false in
   match hd with
+  | "PF" ->
+      env.pf <- Some (side_of (List.nth f 1).[0], (List.nth f 2).[0], arg 3); []
+  | "GRPC" -> env.grpc <- true; []
+  | "chg" | "shg" ->
+      let x = side_of hd.[0] in
+      if not (can_send env x) then [] else
+      if rejected x 'H' then send x KBad else
+      let k = enqueue (own env x) (arg 1) 0 in send x (KOwn (false, capk k))
+  | "cdok" | "sdok" ->
+      let x = side_of hd.[0] in
+      if not (can_send env x) then [] else
+      if rejected x 'D' then send x KDataBad else
+      let k = enqueue (own env x) (arg 1) 8 in send x (KOwn (true, capk k))
+  | "cdbad" | "sdbad" ->
+      let x = side_of hd.[0] in
+      if not (can_send env x) then [] else
+      if env.grpc || rejected x 'D' then send x KDataBad
+      else let k = enqueue (own env x) (arg 1) 10 in send x (KOwn (true, capk k))
+  | "spp" ->
+      if not (can_send env Sv) then [] else
+      if rejected Sv 'P' then send Sv KBad else
+      let k = enqueue (own env Sv) (arg 1) 0 in send Sv (KOwn (false, capk k))
+  | "sst" | "cst" | "sga" | "cga" -> send (side_of hd.[0]) KDirect
+  | "RFC" -> let r = if env.c_open then [ EHalf Cl ] else [] in env.c_open <- false; r
   | "hs" ->
       env.started <- true;
       let kc = set_init env.s2c (arg 1) in   (* the client's SETTINGS govern server->client *)
@@ -94,15 +126,20 @@ let labels_of_part (env : env) (p : string) : label list =
   | "ch" | "sh" ->
       let x = side_of hd.[0] in
       if not (can_send env x) then [] else
+      if rejected x 'H' then send x KBad else
       let k = enqueue (own env x) (arg 1) 0 in send x (KOwn (false, capk k))
   | "cd" | "sd" ->
       let x = side_of hd.[0] in
       if not (can_send env x) then [] else
-      times (arg 2) (fun () -> let k = enqueue (own env x) (arg 1) (arg 3) in send x (KOwn (arg 3 > 0, capk k)))
+      times (arg 2) (fun () ->
+          if rejected x 'D' then send x KDataBad
+          else let k = enqueue (own env x) (arg 1) (arg 3) in send x (KOwn (arg 3 > 0, capk k)))
   | "cr" | "sr" ->
       let x = side_of hd.[0] in
       if not (can_send env x) then [] else
-      times (arg 2) (fun () -> let k = enqueue (own env x) (arg 1) 0 in send x (KOwn (false, capk k)))
+      times (arg 2) (fun () ->
+          if rejected x 'R' then send x KBad
+          else let k = enqueue (own env x) (arg 1) 0 in send x (KOwn (false, capk k)))
   | "cw" | "sw" ->
       let x = side_of hd.[0] in
       if not (can_send env x) then [] else
@@ -126,7 +163,7 @@ let labels_of_part (env : env) (p : string) : label list =
   | _ -> failwith ("bad script op " ^ p)
 
 let ops_of_script (toks : string list) : label list list =
-  let env = { c2s = new_fc (); s2c = new_fc (); started = false; over = false; c_open = true; s_open = true; c_stalled = false } in
+  let env = { c2s = new_fc (); s2c = new_fc (); started = false; over = false; c_open = true; s_open = true; c_stalled = false; pf = None; pf_count = 0; grpc = false } in
   List.map (fun op -> List.concat (List.map (labels_of_part env) (String.split_on_char '+' op))) toks
 
 (* ---- observations ---- *)
